@@ -1,16 +1,15 @@
 use proc_macro2::TokenStream;
 use quote::quote;
 use std::collections::HashSet;
-use syn::{punctuated::Punctuated, Error, FnArg, Pat, Type};
+use syn::{punctuated::Punctuated, Error, Type};
 
 use super::{
     types::{ArgInfo, MethodAttrs},
     utils::*,
 };
-use crate::utils::*;
 
 pub(super) fn generate_method_impl(
-    method: &mut syn::TraitItemFn,
+    method: &syn::TraitItemFn,
     interface_name: &str,
     trait_generics: &syn::Generics,
     method_attrs: &MethodAttrs,
@@ -121,6 +120,7 @@ pub(super) fn generate_method_impl(
     // Generate the method implementation using the original signature but with new return type and
     // body
     let mut method_sig = method.sig.clone();
+    remove_param_attrs(&mut method_sig);
     method_sig.output = syn::parse2(quote! { -> #return_type })?;
 
     Ok(quote! {
@@ -129,55 +129,6 @@ pub(super) fn generate_method_impl(
             #implementation
         }
     })
-}
-
-fn parse_method_arguments<'a>(
-    method: &'a mut syn::TraitItemFn,
-    has_explicit_lifetimes: bool,
-) -> Result<Vec<ArgInfo<'a>>, Error> {
-    method
-        .sig
-        .inputs
-        .iter_mut()
-        .skip(1)
-        .filter_map(|arg| {
-            let FnArg::Typed(pat_type) = arg else {
-                return None;
-            };
-            let Pat::Ident(pat_ident) = &*pat_type.pat else {
-                return None;
-            };
-
-            let name = &pat_ident.ident;
-            let ty = &pat_type.ty;
-
-            // Extract parameter rename attribute
-            let serialized_name = extract_param_rename_attr(&mut pat_type.attrs)
-                .ok()
-                .flatten();
-
-            // Check if the type is optional
-            let is_optional = is_option_type(ty);
-
-            // Only convert to single lifetime if there are no explicit lifetimes
-            let ty_for_params = if has_explicit_lifetimes {
-                (**ty).clone()
-            } else {
-                convert_to_single_lifetime(ty)
-            };
-
-            // Check if this argument has lifetimes
-            let has_lifetime = type_contains_lifetime(&ty_for_params);
-
-            Some(Ok(ArgInfo {
-                name,
-                ty_for_params,
-                is_optional,
-                has_lifetime,
-                serialized_name,
-            }))
-        })
-        .collect()
 }
 
 fn generate_method_params(
@@ -237,33 +188,7 @@ fn generate_method_params(
         };
 
         // Generate struct fields with optional serde attributes
-        let struct_fields = arg_infos.iter().map(|info| {
-            let name = info.name;
-            let ty = &info.ty_for_params;
-
-            let serde_attrs = if let Some(ref renamed) = info.serialized_name {
-                if info.is_optional {
-                    quote! {
-                        #[serde(rename = #renamed, skip_serializing_if = "Option::is_none")]
-                    }
-                } else {
-                    quote! {
-                        #[serde(rename = #renamed)]
-                    }
-                }
-            } else if info.is_optional {
-                quote! {
-                    #[serde(skip_serializing_if = "Option::is_none")]
-                }
-            } else {
-                quote! {}
-            };
-
-            quote! {
-                #serde_attrs
-                #name: #ty
-            }
-        });
+        let struct_fields = generate_params_fields(arg_infos);
 
         // Add where clause with bounds from method's where clause for used type parameters
         let params_where_clause = build_params_where_clause(method_generics, &used_type_params);
